@@ -436,7 +436,12 @@ func (g *Generator) generateUnwrapMapMarshal(
 	} else {
 		// For scalar types, marshal the array directly with json
 		gf.P("// Marshal the unwrap field directly (the array of scalars)")
-		gf.P("arrayData, err := json.Marshal(wrapper.Get", unwrapFieldName, "())")
+		// A nil list is an empty array on the wire, not null
+		gf.P("arrayData := []byte(\"[]\")")
+		gf.P("var err error")
+		gf.P("if list := wrapper.Get", unwrapFieldName, "(); list != nil {")
+		gf.P("arrayData, err = json.Marshal(list)")
+		gf.P("}")
 	}
 
 	gf.P("if err != nil {")
@@ -756,7 +761,10 @@ func (g *Generator) generateRootMapUnwrapMarshalJSON(gf *protogen.GeneratedFile,
 		// Root map with message values (no value unwrap)
 		g.generateRootMapMessageValueMarshal(gf, rootUnwrap, fieldName)
 	default:
-		// Root map with scalar values
+		// Root map with scalar values (a nil map is an empty object, not null)
+		gf.P("if x.", fieldName, " == nil {")
+		gf.P("return []byte(\"{}\"), nil")
+		gf.P("}")
 		gf.P("return json.Marshal(x.", fieldName, ")")
 	}
 
@@ -789,7 +797,12 @@ func (g *Generator) generateRootMapWithValueUnwrapMarshal(
 		gf.P("}")
 		gf.P("arrayData, err := json.Marshal(items)")
 	} else {
-		gf.P("arrayData, err := json.Marshal(wrapper.Get", unwrapFieldName, "())")
+		// A nil list is an empty array on the wire, not null
+		gf.P("arrayData := []byte(\"[]\")")
+		gf.P("var err error")
+		gf.P("if list := wrapper.Get", unwrapFieldName, "(); list != nil {")
+		gf.P("arrayData, err = json.Marshal(list)")
+		gf.P("}")
 	}
 
 	gf.P("if err != nil {")
@@ -943,7 +956,10 @@ func (g *Generator) generateRootRepeatedUnwrapMarshalJSON(gf *protogen.Generated
 		// Suppress unused variable warning
 		_ = elementTypeIdent
 	} else {
-		// Scalar type - marshal directly
+		// Scalar type - marshal directly (a nil list is an empty array, not null)
+		gf.P("if x.", fieldName, " == nil {")
+		gf.P("return []byte(\"[]\"), nil")
+		gf.P("}")
 		gf.P("return json.Marshal(x.", fieldName, ")")
 	}
 
